@@ -71,7 +71,7 @@ class Contract:
                  modifies=(), loops=None, locals=None, ghost=None, inline=False, pure=None,
                  props=(), trusted=None, maintains_inv=True, assumes_inv=True, generator=None,
                  interference=None, ghost_params=None, noreturn=False, havoc_calls=None,
-                 commit=None, canary=True, closure_env=None, prove_asserts=False, ghost_results=None, raises_args=None, defaults=None, portfolio=False, bind_result=None):
+                 commit=None, canary=True, closure_env=None, prove_asserts=False, ghost_results=None, raises_args=None, defaults=None, portfolio=False, bind_result=None, tier='quick'):
         self.key = key
         self.params = params or {}
         self.returns = returns
@@ -109,6 +109,7 @@ class Contract:
         self.closure_env = closure_env
         self.ghost_results = ghost_results or {}
         self.defaults = defaults or {}
+        self.tier = tier                 # 'thorough': only verified by the thorough command (slow unit)
         self.bind_result = bind_result or {}    # fields of a returned object that alias existing objects
         self.portfolio = portfolio      # run cvc5 alongside z3 (byte-sequence VCs)
         self.raises_args = raises_args or {}   # exception class -> callable(ip) -> tuple of argument values
